@@ -29,6 +29,10 @@ theorem sawEmpty_step {cfg : Cfg} {s s' : St} {e : Ev} {a : Actor} (hs : step cf
     split at hs
     · simp only [Option.some.injEq] at hs; subst hs; simp [setPc] at h; simp [isCallOf, h]
     · simp at hs
+  | cbPushMany b n =>
+    simp only [step, stepCbPushMany] at hs
+    split at hs; · simp at hs
+    simp only [Option.some.injEq] at hs; subst hs; simp [setPc] at h; simp [isCallOf, h]
   | tas b old =>
     simp only [step, stepTas] at hs
     split at hs; · simp at hs
